@@ -12,3 +12,5 @@ import AITB.Props.C03Tie
 import AITB.Props.C03Qmdp
 import AITB.Props.C03Examples
 import AITB.Props.C03Bridge
+import AITB.Props.C03CheckSound
+import AITB.Props.C03Gap
